@@ -6,6 +6,7 @@
 // documented return codes, allocation and I/O buffer bounds, zero live library blocks after teardown.
 #include "proto.h"
 #include "peek.h"
+#include "keys.h"
 
 static const char *ARM[] = { "setword", "setword", "setbyte", "set3", "hsfield", "hsfield", "hsfield", "flipbit", "flipbit", "trunc", "extend", "setlen", "setlen",
                              "type", "ver", "epoch", "seq", "dup", "drop", "swapnext", "refrag", "refrag", "grow", "grow", "grow", "shrink", "fragmove", "cutfront", "vecgrow", "vecgrow", "vecgrow" };
@@ -34,6 +35,7 @@ static Plan c08_gen(uint64_t seed, int tier, uint64_t index) {
     if (ver >= 3) { p.cfg["pmtu"] = PMTUS[r.below(sizeof PMTUS / sizeof PMTUS[0])]; }
     if (ver < 3 && r.chance(1, 2)) { p.cfg["split"] = 1 + (int64_t) r.below(3); }
     if (r.chance(1, 3)) { p.cfg["sibling"] = 1; }
+    if (r.chance(1, 4)) { p.cfg["chain"] = 1; }          // identities presented as two-element chains (leaf + issuer)
     if (r.chance(1, 6) && ver != 2) { p.cfg["resume"] = 1; if (p.get("tickets") && r.chance(1, 2)) { p.cfg["rotate"] = 1; } }
     if (p.get("resume") && p.get("tickets") && r.chance(1, 3)) { p.cfg["tkcut"] = 1 + (int64_t) r.below(140); }
     // faults early in the handshake (plaintext parsers), at arbitrary parking points
@@ -254,6 +256,22 @@ static std::vector<Plan> c08_fixed(int tier) {
                         p.ops.push_back(Op("hs"));
                         v.push_back(p);
                     }
+                }
+            }
+        }
+    }
+    // two-element certificate chains (leaf + issuer): the first element parses, the second is edited at its outer TLVs
+    for (int ver = 0; ver < 2; ver++) {
+        for (int kind = 0; kind < 2; kind++) {
+            struct vsim_keymat m; if (!vsim_keymat(kind ? KK_EC256 : KK_RSA2048, &m)) { continue; }
+            for (int off = 0; off < (tier ? 40 : 16); off++) {
+                for (int val = 0; val < 2; val++) {
+                    Plan p; p.seed = 79000 + (uint64_t) (((ver * 2 + kind) * 40 + off) * 2 + val);
+                    p.cfg["ver"] = ver; p.cfg["suite"] = kind ? TLS_ECDHE_ECDSA_WITH_AES_128_CBC_SHA : TLS_ECDHE_RSA_WITH_AES_128_CBC_SHA; p.cfg["chain"] = 1;
+                    // record body: handshake header (4), certificate_list length (3), first entry length (3) + certificate, second entry length (3), second certificate
+                    p.ops.push_back(Op("arm", DIR_S2C, (int64_t) (4 + 3 + 3 + m.certLen + 3 + (size_t) off), val ? 5 : 0, 1, "setbyte"));
+                    p.ops.push_back(Op("hs"));
+                    v.push_back(p);
                 }
             }
         }
